@@ -24,14 +24,24 @@ func rareRun(c *run.Ctx, cs *Case, ctx *Ctx, noOpt bool, dir string) (out string
 	var args []string
 	env := append(os.Environ(), "NO_COLOR=1")
 	if cs.File != "" {
-		f := filepath.Join(dir, "gen.funcs")
-		if err := os.WriteFile(f, []byte(cs.File), 0o644); err != nil {
-			return "", false, err.Error()
+		files := []string{cs.File}
+		if len(cs.Files) > 0 {
+			files = cs.Files // the same definitions spread over several files, in order (later files call earlier ones)
+		}
+		var paths []string
+		for i, content := range files {
+			f := filepath.Join(dir, fmt.Sprintf("gen%d.funcs", i))
+			if err := os.WriteFile(f, []byte(content), 0o644); err != nil {
+				return "", false, err.Error()
+			}
+			paths = append(paths, f)
 		}
 		if cs.Env {
-			env = append(env, "RARE_FUNC_FILES="+f)
+			env = append(env, "RARE_FUNC_FILES="+strings.Join(paths, ","))
 		} else {
-			args = append(args, "--funcs", f)
+			for _, f := range paths {
+				args = append(args, "--funcs", f)
+			}
 		}
 	}
 	args = append(args, "--nocolor", "expression", "-n", "-r")
@@ -174,6 +184,17 @@ func cliCases(c *run.Ctx) {
 			if !ok {
 				continue
 			}
+			var parts []string
+			if len(fs) >= 2 && i%3 == 1 {
+				// the same definitions in two files: the second one may call functions of the first
+				k := 1 + r.Intn(len(fs)-1)
+				f1, ok1 := g.layout(fs[:k])
+				f2, ok2 := g.layout(fs[k:])
+				if ok1 && ok2 {
+					parts = []string{f1, f2}
+					file = f1 + "\n" + f2
+				}
+			}
 			tree := g.callSite(fs, 2)
 			both := builtinUse(tree, g.redefined)
 			for _, f := range fs {
@@ -192,7 +213,10 @@ func cliCases(c *run.Ctx) {
 			}
 			ref, ok3 := Print(inl)
 			if ok3 && !g.noCLI && !g.stateful && cliTemplateOK(tpl) {
-				cs = &Case{Kind: "cli", Tpl: tpl, Ref: ref, File: file, Env: r.Intn(3) == 0}
+				cs = &Case{Kind: "cli", Tpl: tpl, Ref: ref, File: file, Files: parts, Env: r.Intn(3) == 0}
+				if len(parts) > 0 {
+					c.Count("cli_cases_with_two_funcs_files", 1)
+				}
 			}
 		}
 		if cs == nil {
